@@ -146,6 +146,9 @@ func runPlScenario(r Rng, sc plScenario) *plRun {
 		}
 		if b.kind == "bad" {
 			rows[len(rows)-1] = badRow()
+			if b.id%3 == 0 {
+				rows[len(rows)-1] = nil // a nil row is refused like an unmarshalable one
+			}
 		}
 		b.mu.Lock()
 		b.tCall = time.Now()
